@@ -373,6 +373,14 @@ func (i *interpreter) runPath(p *program, pkg *ssa.Package, fn *ssa.Function, pr
 	i.runThreads(func() {
 		call(i, nil, token.NoPos, fn, []value{args})
 	})
+	if os.Getenv("VX_DEBUG") == "4" {
+		for _, t := range i.sch.threads {
+			fmt.Fprintf(os.Stderr, "thread %d %s state=%d what=%s\n", t.id, t.name, t.state, t.what)
+		}
+		for _, e := range i.path.events {
+			fmt.Fprintln(os.Stderr, "  event:", e)
+		}
+	}
 	i.rollback()
 
 	// classify the outcome
